@@ -1167,4 +1167,230 @@ theorem readAllF_fuel (fixed : Bool) (ctx : Ctx) (fuel : Nat) (st : RState) (s :
       have := readRec_progress hr
       exact ih st' rest (by omega)
 
+/-! ### perf-cpuN.dat -/
+
+@[simp] theorem PRec.hdr_length (r : PRec) : r.hdr.length = 8 := by simp [PRec.hdr]
+
+@[simp] theorem PRec.enc_length (r : PRec) : r.enc.length = 8 + r.body.length := by simp [PRec.enc]
+
+theorem PRec.hdr_fields {r : PRec} (h1 : r.typ < 2 ^ 32) (h2 : r.misc < 2 ^ 16)
+    (h3 : 8 + r.body.length < 2 ^ 16) :
+    sub r.hdr 0 4 = r.typ ∧ sub r.hdr 4 2 = r.misc ∧ sub r.hdr 6 2 = 8 + r.body.length := by
+  refine ⟨?_, ?_, ?_⟩
+  · simp [sub, PRec.hdr]
+    exact leVal_leBytes 4 _ (by simpa using h1)
+  · simp [sub, PRec.hdr]
+    exact leVal_leBytes 2 _ (by simpa using h2)
+  · simp [sub, PRec.hdr, List.drop_append]
+    exact leVal_leBytes 2 _ (by simpa using h3)
+
+theorem readPerfEv_nil (fixed : Bool) : readPerfEv fixed [] = .done .eof := by
+  simp [readPerfEv, fread]
+
+theorem readPerfAllF_nil (fixed : Bool) (n : Nat) : readPerfAllF fixed (n + 1) [] = ([], .eof) := by
+  simp [readPerfAllF, readPerfEv_nil]
+
+/-- a whole well-formed record: delivered (known type) or skipped, reading goes on right behind it -/
+theorem readPerfEv_whole {r : PRec} (hwf : PWF r) (t : Bytes) :
+    readPerfEv false (r.enc ++ t) =
+      (match pEvOf r with | some e => .got e t | none => .again t) := by
+  obtain ⟨h1, h2, h3, h14, h47, hc⟩ := hwf
+  obtain ⟨f1, f2, f3⟩ := PRec.hdr_fields h1 h2 h3
+  have hfr : fread 8 (r.enc ++ t) = some (r.hdr, r.body ++ t) := by
+    rw [PRec.enc, List.append_assoc]; exact fread_app _ (by simp)
+  unfold readPerfEv
+  simp only [hfr, f1, f2, f3]
+  have hs : ¬ (8 + r.body.length < 8) := by omega
+  simp only [hs, ↓reduceIte, Nat.add_sub_cancel_left, Bool.false_and, Bool.false_eq_true]
+  by_cases a : r.typ = 14
+  · have hl := h14 a
+    have hfb : fread r.body.length (r.body ++ t) = some (r.body, t) := fread_app _ rfl
+    simp [a, pEvOf, hl, perfUnion, hfb] at hfb ⊢
+    simp [hfb]
+  · by_cases b : r.typ = 4 ∨ r.typ = 7
+    · have hl := h47 b
+      have hfb : fread r.body.length (r.body ++ t) = some (r.body, t) := fread_app _ rfl
+      rw [hl] at hfb
+      simp [a, b, pEvOf, hl, perfUnion, hfb]
+    · have b' : ¬ (r.typ = 14 ∨ r.typ = 4 ∨ r.typ = 7) := by
+        intro h; rcases h with h | h | h
+        · exact a h
+        · exact b (Or.inl h)
+        · exact b (Or.inr h)
+      by_cases c : r.typ = 3
+      · have hsplit : r.body = r.body.take (r.body.length - 16) ++ r.body.drop (r.body.length - 16) :=
+          (List.take_append_drop _ _).symm
+        clear hsplit
+        rcases hc c with hl | hl
+        · have hf1 : fread 16 (r.body ++ t) = some (r.body.take 16, r.body.drop 16 ++ t) := by
+            conv => lhs; rw [← List.take_append_drop 16 r.body, List.append_assoc]
+            exact fread_app _ (by simp; omega)
+          have hf2 : fread 16 (r.body.drop 16 ++ t) = some (r.body.drop 16, t) :=
+            fread_app _ (by simp; omega)
+          simp [a, b', c, pEvOf, hl, perfUnion, hf1, hf2, sub, List.take_take, List.drop_take]
+          omega
+        · have hf1 : fread 24 (r.body ++ t) = some (r.body.take 24, r.body.drop 24 ++ t) := by
+            conv => lhs; rw [← List.take_append_drop 24 r.body, List.append_assoc]
+            exact fread_app _ (by simp; omega)
+          have hf2 : fread 16 (r.body.drop 24 ++ t) = some (r.body.drop 24, t) :=
+            fread_app _ (by simp; omega)
+          simp [a, b', c, pEvOf, hl, perfUnion, hf1, hf2, sub, List.take_take, List.drop_take]
+          omega
+      · simp [a, b, b', c, pEvOf]
+
+/-- a well-formed record cut anywhere inside: nothing is delivered, the file is at its end -/
+theorem readPerfAllF_cut_one {r : PRec} (hwf : PWF r) {k : Nat} (hk : k < r.enc.length) (n : Nat) :
+    readPerfAllF false (n + 2) (r.enc.take k) = ([], .eof) := by
+  obtain ⟨h1, h2, h3, h14, h47, hc⟩ := hwf
+  obtain ⟨f1, f2, f3⟩ := PRec.hdr_fields h1 h2 h3
+  by_cases h8 : k < 8
+  · have : fread 8 (r.enc.take k) = none := fread_none (by simp; omega)
+    simp [readPerfAllF, readPerfEv, this]
+  · have htk : r.enc.take k = r.hdr ++ r.body.take (k - 8) := by
+      rw [PRec.enc, take_app_ge (by simp; omega)]; simp
+    have hfr : fread 8 (r.enc.take k) = some (r.hdr, r.body.take (k - 8)) := by
+      rw [htk]; exact fread_app _ (by simp)
+    have hk8 : k - 8 < r.body.length := by simp at hk; omega
+    have hlen : (r.body.take (k - 8)).length = k - 8 := by simp; omega
+    have hlt : (r.body.take (k - 8)).length < r.body.length := by omega
+    have hs : ¬ (8 + r.body.length < 8) := by omega
+    rw [readPerfAllF]
+    unfold readPerfEv
+    simp only [hfr, f1, f2, f3, hs, ↓reduceIte, Nat.add_sub_cancel_left, Bool.false_and,
+      Bool.false_eq_true]
+    by_cases a : r.typ = 14
+    · have hl := h14 a
+      have hn : fread 16 (r.body.take (k - 8)) = none := fread_none (by omega)
+      simp [a, hl, perfUnion, hn]
+      rw [if_neg (by omega)]
+      simp [readPerfAllF_nil]
+    · by_cases b : r.typ = 4 ∨ r.typ = 7
+      · have hl := h47 b
+        have hn : fread 40 (r.body.take (k - 8)) = none := fread_none (by omega)
+        simp [a, b, hl, perfUnion, hn]
+        rw [if_neg (by omega)]
+        simp [readPerfAllF_nil]
+      · have b' : ¬ (r.typ = 14 ∨ r.typ = 4 ∨ r.typ = 7) := by
+          intro h; rcases h with h | h | h
+          · exact a h
+          · exact b (Or.inl h)
+          · exact b (Or.inr h)
+        by_cases c : r.typ = 3
+        · have fin : ∀ cl, cl + 16 = r.body.length → ∀ x, fread cl (r.body.take (k - 8)) = some x →
+              x.2.length < 16 := by
+            intro cl hcl x hf
+            obtain ⟨c', s2⟩ := x
+            obtain ⟨hsp, hcl'⟩ := fread_some hf
+            have := congrArg List.length hsp
+            simp only [List.length_append] at this
+            show s2.length < 16
+            omega
+          rcases hc c with hl | hl
+          · simp [c, hl, perfUnion]
+            rw [if_neg (by omega)]
+            cases hf : fread 16 (List.take (k - 8) r.body) with
+            | none => simp [readPerfAllF_nil]
+            | some x =>
+              have hlt2 := fin 16 (by omega) _ hf
+              obtain ⟨c', s2⟩ := x
+              simp [fread_none hlt2, readPerfAllF_nil]
+          · simp [c, hl, perfUnion]
+            rw [if_neg (by omega)]
+            cases hf : fread 24 (List.take (k - 8) r.body) with
+            | none => simp [readPerfAllF_nil]
+            | some x =>
+              have hlt2 := fin 24 (by omega) _ hf
+              obtain ⟨c', s2⟩ := x
+              simp [fread_none hlt2, readPerfAllF_nil]
+        · have hd : (r.body.take (k - 8)).drop r.body.length = [] :=
+            List.drop_of_length_le (by omega)
+          simp [a, b, b', c, hd, readPerfAllF_nil]
+
+theorem pEncodeAll_cons (r : PRec) (rs : List PRec) : pEncodeAll (r :: rs) = r.enc ++ pEncodeAll rs := rfl
+
+theorem readPerfAllF_cut (rs : List PRec) (hwf : ∀ r ∈ rs, PWF r) (k fuel : Nat)
+    (hf : pWholeBefore rs k + 2 ≤ fuel) :
+    readPerfAllF false fuel ((pEncodeAll rs).take k) =
+      ((rs.take (pWholeBefore rs k)).filterMap pEvOf, .eof) := by
+  induction rs generalizing k fuel with
+  | nil =>
+    obtain ⟨n, rfl⟩ : ∃ n, fuel = n + 1 := ⟨fuel - 1, by omega⟩
+    simp [pEncodeAll, readPerfAllF_nil, pWholeBefore]
+  | cons r rs ih =>
+    have hr : PWF r := hwf r (by simp)
+    have hrs : ∀ x ∈ rs, PWF x := fun x hx => hwf x (by simp [hx])
+    by_cases hn : r.enc.length ≤ k
+    · have hw : pWholeBefore (r :: rs) k = 1 + pWholeBefore rs (k - r.enc.length) := by
+        simp only [pWholeBefore, if_pos hn]
+      rw [hw] at hf ⊢
+      obtain ⟨n, rfl⟩ : ∃ n, fuel = n + 1 := ⟨fuel - 1, by omega⟩
+      rw [pEncodeAll_cons, take_app_ge hn, readPerfAllF, readPerfEv_whole hr]
+      have hih := ih hrs (k - r.enc.length) n (by omega)
+      rw [Nat.add_comm 1, List.take_succ_cons, List.filterMap_cons]
+      cases pEvOf r with
+      | none => simp only [hih]
+      | some e => simp only [hih]
+    · have hw : pWholeBefore (r :: rs) k = 0 := by simp only [pWholeBefore, if_neg hn]
+      rw [hw] at hf ⊢
+      obtain ⟨n, rfl⟩ : ∃ n, fuel = n + 2 := ⟨fuel - 2, by omega⟩
+      rw [pEncodeAll_cons, take_app_lt (by omega), readPerfAllF_cut_one hr (by omega)]
+      simp
+
+theorem pWhole_le (rs : List PRec) (k : Nat) :
+    8 * pWholeBefore rs k ≤ ((pEncodeAll rs).take k).length := by
+  induction rs generalizing k with
+  | nil => simp [pWholeBefore]
+  | cons r rs ih =>
+    simp only [pWholeBefore]
+    split
+    · rename_i hn
+      have := ih (k - r.enc.length)
+      rw [pEncodeAll_cons, take_app_ge hn]
+      simp only [List.length_append, PRec.enc_length] at this ⊢
+      omega
+    · omega
+
+theorem pWhole_full (rs : List PRec) : pWholeBefore rs (pEncodeAll rs).length = rs.length := by
+  induction rs with
+  | nil => rfl
+  | cons r rs ih =>
+    simp only [pWholeBefore, pEncodeAll_cons, List.length_append, Nat.le_add_right, ↓reduceIte,
+      Nat.add_sub_cancel_left, ih, List.length_cons]
+    omega
+
+/-! the reader with the size checks never stores outside the union, on any byte string -/
+
+theorem readPerfEv_fixed_safe (s : Bytes) :
+    readPerfEv true s ≠ .done .oob ∧ readPerfEv true s ≠ .done .badSize := by
+  unfold readPerfEv
+  cases fread 8 s with
+  | none => simp
+  | some x =>
+    obtain ⟨h, s1⟩ := x
+    simp only []
+    constructor <;>
+    · repeat' split
+      all_goals first
+        | (intro hh; cases hh; done)
+        | (intro hh; injection hh with hh; cases hh; done)
+        | (simp_all [perfUnion]; done)
+        | (simp_all [perfUnion]; first | omega | grind)
+
+theorem readPerfAllF_fixed_safe (fuel : Nat) (s : Bytes) :
+    (readPerfAllF true fuel s).2 ≠ .oob ∧ (readPerfAllF true fuel s).2 ≠ .badSize := by
+  induction fuel generalizing s with
+  | zero => simp [readPerfAllF]
+  | succ n ih =>
+    have hs := readPerfEv_fixed_safe s
+    rw [readPerfAllF]
+    cases h : readPerfEv true s with
+    | done st =>
+      rw [h] at hs
+      simp only []
+      constructor
+      · intro he; exact hs.1 (by rw [he])
+      · intro he; exact hs.2 (by rw [he])
+    | again rest => exact ih rest
+    | got e rest => exact ih rest
+
 end Uft.Trunc
